@@ -39,17 +39,22 @@ def _alarm(signum, frame):
     raise _Timeout()
 
 
-def _call(cls, text, plat):
+def _call(cls, text, plat, extra=None):
     import cisco_acl
     from cisco_acl import Acl, AceGroup, AddrGroup, Ace, Remark, Address, AddressAg, Port, Protocol, Option, Wildcard
+    extra = dict(extra or {})
     if cls in ("acls", "aces", "addrgroups"):
-        r = getattr(cisco_acl, cls)(text, platform=plat)
+        if cls == "addrgroups":
+            extra.pop("group_by", None)
+        r = getattr(cisco_acl, cls)(text, platform=plat, **extra)
         return r
     c = dict(Acl=Acl, AceGroup=AceGroup, AddrGroup=AddrGroup, Ace=Ace, Remark=Remark, Address=Address, AddressAg=AddressAg, Port=Port,
              Protocol=Protocol, Option=Option, Wildcard=Wildcard)[cls]
     kw = dict(platform=plat)
     if cls == "Port":
         kw["protocol"] = "tcp"
+    if cls == "Acl":
+        kw.update(extra)
     return c(text, **kw)
 
 
@@ -81,9 +86,10 @@ def _outcome(fn):
 def exec_job(job):
     cls, plat, text = job["cls"], job["plat"], job["text"]
     e = dict(tid=job["tid"], i=0, act="Call", cls=cls, outcome="", re="ok")
-    e["outcome"], obj = _outcome(lambda: _call(cls, text, plat))
+    extra = job.get("kw")
+    e["outcome"], obj = _outcome(lambda: _call(cls, text, plat, extra))
     if e["outcome"] == "Timeout":          # re-run once in isolation before it is believed
-        e["outcome"], obj = _outcome(lambda: _call(cls, text, plat))
+        e["outcome"], obj = _outcome(lambda: _call(cls, text, plat, extra))
     if e["outcome"] == "ok":
         objs = obj if isinstance(obj, list) else [obj]
 
@@ -91,7 +97,7 @@ def exec_job(job):
             for o in objs:
                 c = type(o).__name__
                 if c in CLASSES:
-                    _call(c, o.line, plat)
+                    _call(c, o.line, plat, extra)
                 elif hasattr(o, "line"):
                     _ = o.line
             return None
@@ -169,6 +175,17 @@ def run(tier, seed):
         plat = rng.choice(["ios", "nxos"])
         cfg = wild_config(rng, plat)
         add(rng.choice(["acls", "aces", "addrgroups"]), rng.choice([plat, plat, "asa"]), cfg, "config")
+        if rng.random() < 0.25:     # the grouping prefix is plain text, whatever characters it holds
+            jobs[-1]["kw"] = dict(group_by=rng.choice(["= ", "*** ", "+++ ", "(", "[", "?", "\\", "== ", ".", "remark"]))
+            jobs[-1]["origin"] = "config-group_by"
+    for _ in range(150 if tier == "quick" else 3000):
+        plat = rng.choice(["ios", "nxos"])
+        hdr = "ip access-list extended X" if plat == "ios" else "ip access-list X"
+        g = rng.choice(["= ", "*** ", "+++ ", "(", "[", "?", "\\", "$", "^", "|", "{1}", "a*"])
+        body = [f"remark {g}HEAD", "permit ip any any", f"remark {rng.choice([g, 'x'])}", "deny tcp any any eq 80", "remark " + g]
+        rng.shuffle(body)
+        add("Acl", plat, "\n".join([hdr] + [" " + b for b in body]), "acl-group_by")
+        jobs[-1]["kw"] = dict(group_by=g)
     for cls in CLASSES + ["acls", "aces", "addrgroups"]:
         for text in ["", " ", "\n", "\t\n  \n", "!", "!\n!\n", "\n\n permit ip any any", "ip access-list", "ip access-list extended", "object-group network",
                      "interface X\n ip access-group", "ip access-list extended A\n\tpermit ip any any\n  permit ip any any\n permit ip any any"]:
